@@ -139,10 +139,17 @@ class Repo:
                 st = normalize.normalise_module(tree, name)
                 if any(st.values()):
                     strip_inert(tree)
-                self.renamed.extend(alpha.normalise(tree, name))
+                for _round in range(3):
+                    got = alpha.normalise(tree, name)
+                    self.renamed.extend(got)
+                    if not got:
+                        break
                 st["temporaries"] = normalize.normalise_temporaries(tree, name)
-                if st["temporaries"]:
-                    self.renamed.extend(alpha.normalise(tree, name))
+                for _round in range(3):
+                    got = alpha.normalise(tree, name)
+                    self.renamed.extend(got)
+                    if not got:
+                        break
                 st["guards"] = normalize.normalise_guards(tree, name)
                 for k, v in st.items():
                     self.normalised[k] = self.normalised.get(k, 0) + v
